@@ -200,7 +200,8 @@ class AsyncProtocol(Protocol, EventManager[PhysicalDevice]):
         await self.wait_until_done()
         if self.connected.is_set():
             await self._connection_close()
-            await asyncio.gather(*(device.shutdown() for device in self.data.values()))
+
+        await asyncio.gather(*(device.shutdown() for device in self.data.values()))
 
     async def frame_producer(
         self, queues: Queues, reader: FrameReader, writer: FrameWriter
